@@ -28,10 +28,14 @@ func checkC17(c *Ctx, r *Report) {
 	c17HashCase(c, r)
 	c17IterLoop(c, r)
 	c17KeyTag(c, r)
+	r.rule("C17.R1.canonical-fold", 1, "CanonicalName / asciiLower fold exactly 'A'..'Z', and the fast path that looks for the first capital skips no capital")
+	foldRangeRule(c, r, "C17.R1.canonical-fold", "CanonicalName", "names containing the letter left out keep their case: ToDS digests, HashName and NSEC3 Match/Cover are no longer case independent")
 	r.rule("C17.R5.ecdsa-widths", 1, "ECDSA keys are written and read with RFC 6605's coordinate widths per algorithm")
 	ecdsaWidths(c, r, "C17.R5.ecdsa-widths")
 	r.rule("C17.R5.alg-coverage", 2, "every algorithm Generate makes keys for can be re-read by ReadPrivateKey and has a hash")
 	algorithmCoverage(c, r, "C17.R5.alg-coverage", []string{"DNSKEY.ReadPrivateKey", "AlgorithmToHash"})
+	r.rule("C17.R6.keyfile-last-line", 1, "the key-file lexer refuses to flush its pending token only for a real read error, not for io.EOF")
+	lexerTailGuard(c, r, "C17.R6.keyfile-last-line", "klexer.Next", "the last line of a private-key file without a final newline (the PrivateKey line of the library's own ECDSA / Ed25519 export) is dropped and ReadPrivateKey returns a zero key without an error")
 }
 
 // c17R6: the RSA public-key decoder accepts every modulus size the generator can produce.
